@@ -10,9 +10,13 @@
   1. `hi` — a numeric escape `\xHH` / `\ooo` with a value 0x80..0xFF appends that raw byte, which
      can complete a sequence that the raw input leaves open: `"` C3 `\xa9"` is read as `é`
      (the recorded finding, `numeric_escape_completes_sequence` in `Utf8Input`).
-  2. `bl` — NEW: the escaped blank `\ ` is ignored (appends nothing), so a sequence can be
-     continued across it: `"` C3 `\ ` A9 `"` (bytes 22 C3 5C 20 A9 22, not UTF-8) is read as `é`
-     (`escaped_blank_joins_sequence`).
+  2. `bl` — REPAIRED: the escaped blank `\ ` is ignored (appends nothing), so a sequence could be
+     continued across it: `"` C3 `\ ` A9 `"` (bytes 22 C3 5C 20 A9 22, not UTF-8) was read as `é`.
+     The arm now rejects a continuation byte behind the blank
+     (`escaped_blank_inside_sequence_rejected`), and for a STRING result `bl` is no longer needed:
+     `C17_elisp_input_valid_noblank`, `C17_elisp_token_input_valid_noblank` (section "after the
+     repair").  The flag can still rise on a successful run (`bl_still_set_string`, with `hi`), and
+     the synchronisation statement still needs it for a byte string (`bl_needed_for_sync`).
   3. `nc` (unibyte result only) — NEW: the catch-all escape arm consumes the byte after the
      backslash, which may be ≥ 0xC0, without setting `seen_non_ascii`; with a numeric escape
      elsewhere the result is a BYTE string and is never validated: `"\` C3 `\x41"` (bytes
@@ -432,6 +436,202 @@ theorem C17_elisp_token_input_valid {cfg : Cfg} {fuel : Nat} {S S' : St} {tok : 
         exact (C17_elisp_input_valid_unibyte ht hbody hnc).2
   · exact absurd (by decide) hc
 
+/-! ### after the repair of the escaped blank: `bl` is not needed for a string -/
+
+/-- The consumed input `pre` and the buffer `acc` agree, or the run is *pending*: an escaped blank
+    was read inside a sequence — the input is dead, the buffer is still inside the sequence, and
+    the byte that follows (if there is one) is not a continuation byte. -/
+def Rel (pre acc rest : List UInt8) : Prop :=
+  run .idle pre = run .idle acc ∨
+  (run .idle pre = none ∧ (∃ st, run .idle acc = some st ∧ st ≠ .idle) ∧ (rest = [] ∨ Head rest))
+
+theorem run_none_append {pre : List UInt8} (t : List UInt8) (h : run .idle pre = none) :
+    run .idle (pre ++ t) = none := by
+  rw [run_append, h]; rfl
+
+theorem run_mid_append {acc u : List UInt8} {st : Utf8.St} (h : run .idle acc = some st)
+    (hne : st ≠ .idle) (hu : Head u) : run .idle (acc ++ u) = none := by
+  rw [run_append, h, Option.bind_some]
+  exact run_mid_head (run_wf2 (s := .idle) trivial h) hne hu
+
+/-- one escape keeps `Rel`, unless `hi` rises; `rest'` is the input behind the escape -/
+theorem escape_rel {c : UInt8} {t out acc rest rest0 rest' pre : List UInt8} {k : ElispEscape}
+    (hsh : EscShape c t out k) (hrest : rest.head? = some c)
+    (hhi : (escFlags acc rest (acc ++ out) k).hi = false)
+    (hnext : c = 32 → rest' = [] ∨ Head rest')
+    (h : Rel pre acc rest0) : Rel (pre ++ 92 :: c :: t) (acc ++ out) rest' := by
+  have h92 : (92 : UInt8) < 0x80 := by decide
+  rcases h with h | ⟨hp, ⟨st, hst, hne⟩, _⟩
+  · cases hsh with
+    | blank =>
+      rw [List.append_nil]
+      cases hacc : run .idle acc with
+      | none => exact Or.inl (by rw [run_none_append _ (h.trans hacc), hacc])
+      | some st =>
+        by_cases hi : st = .idle
+        · subst hi
+          exact Or.inl (sync_drop h ((valid_iff _).mpr hacc) (run_idle_ascii (by
+            intro b hb; simp at hb; rcases hb with rfl | rfl <;> decide)))
+        · exact Or.inr ⟨run_mid_append (h.trans hacc) hi (Head.ascii _ h92), ⟨st, hacc, hi⟩,
+            hnext rfl⟩
+    | text hc ht hne hv _ => exact Or.inl (sync_text h (Ascii.cons hc ht) hne hv)
+    | byte b hc ht =>
+      simp only [escFlags, lastHigh, List.getLast?_concat] at hhi
+      have hb : b < 0x80 := not_ge_ascii hhi
+      exact Or.inl (sync_text h (Ascii.cons hc ht) (by simp)
+        (valid_ascii (by intro x hx; simp at hx; subst hx; exact hb)))
+    | raw hc => exact Or.inl (sync_raw h hc)
+  · cases hsh with
+    | blank =>
+      rw [List.append_nil]
+      exact Or.inr ⟨run_none_append _ hp, ⟨st, hst, hne⟩, hnext rfl⟩
+    | text hc ht hne' hv _ =>
+      exact Or.inl (by rw [run_none_append _ hp, run_mid_append hst hne (Head.of_valid hne' hv)])
+    | byte b hc ht =>
+      simp only [escFlags, lastHigh, List.getLast?_concat] at hhi
+      have hb : b < 0x80 := not_ge_ascii hhi
+      exact Or.inl (by rw [run_none_append _ hp, run_mid_append hst hne (Head.ascii [] hb)])
+    | raw hc =>
+      exact Or.inl (by rw [run_none_append _ hp, run_mid_append hst hne ⟨c, [], rfl, hc⟩])
+
+/-- **The loop invariant without `bl`**, for a string result: a pending run cannot reach the
+    closing quote (the buffer is validated there), and anything else kills both automaton runs. -/
+theorem parseElispStrT_inv_noblank (f : Nat) : ∀ {acc : List UInt8} {ub mb na : Bool}
+    {fl0 fl : Flags} {S S' : St} {s : List UInt8},
+    parseElispStrT f acc ub mb na fl0 S = .ok (.multibyte s, fl) S' → fl.hi = false →
+    ∃ w, S.rd.rest = w ++ 34 :: S'.rd.rest ∧
+      ∀ pre, Rel pre acc S.rd.rest → run .idle (pre ++ w) = run .idle s := by
+  induction f with
+  | zero => intro acc ub mb na fl0 fl S S' s h; simp [parseElispStrT, outOfFuel] at h
+  | succ f ih =>
+    intro acc ub mb na fl0 fl S S' s h hhi
+    simp only [parseElispStrT] at h
+    obtain ⟨c, s1, hn, h⟩ := bind_ok h
+    obtain ⟨_, hr⟩ := nextOrEof_ok hn
+    rcases ite_ok h with ⟨h34, h⟩ | ⟨_, h⟩
+    · -- the closing quote
+      rw [eq_of_beq h34] at hr
+      rcases ite_ok h with ⟨hu, h⟩ | ⟨_, h⟩
+      · obtain ⟨h1, _⟩ := pure_ok h
+        cases h1
+      · obtain ⟨o, s2, hf, h⟩ := bind_ok h
+        obtain ⟨h1, h2⟩ := pure_ok h
+        cases h1; subst h2
+        have hs2 := finishStr_state hf
+        subst hs2
+        obtain ⟨rfl, hv⟩ := finishStr_ok hf
+        have hv' : valid s = true := by
+          rcases hv with hv | ⟨hc, _⟩
+          · exact hv
+          · cases hc
+        refine ⟨[], hr, fun pre hrel => ?_⟩
+        rw [List.append_nil]
+        rcases hrel with hrel | ⟨_, ⟨st, hst, hne⟩, _⟩
+        · exact hrel
+        · rw [(valid_iff _).mp hv'] at hst
+          cases hst
+          exact absurd rfl hne
+    rcases ite_ok h with ⟨h92, h⟩ | ⟨_, h⟩
+    · -- an escape
+      rw [eq_of_beq h92] at hr
+      obtain ⟨rest, s1', hg, h⟩ := bind_ok h
+      have hg' : s1.rd.rest = rest ∧ s1 = s1' := by
+        simp only [getRest, Res.ok.injEq] at hg
+        exact ⟨hg.1, hg.2⟩
+      obtain ⟨rfl, rfl⟩ := hg'
+      obtain ⟨⟨acc', k⟩, s2, he, h⟩ := bind_ok h
+      obtain ⟨c', t, out, hr1, rfl, hsh⟩ := parseElispEscape_shape he
+      have hhead : s1.rd.rest.head? = some c' := by rw [hr1]; rfl
+      have hrec : ∃ ub' mb', parseElispStrT f (acc ++ out) ub' mb' na
+          (fl0.or (escFlags acc s1.rd.rest (acc ++ out) k)) s2 = .ok (.multibyte s, fl) S' := by
+        cases k
+        · exact ⟨_, _, h⟩
+        · exact ⟨_, _, h⟩
+        · exact ⟨_, _, h⟩
+      obtain ⟨ub', mb', hrec⟩ := hrec
+      obtain ⟨w2, hr2, hsync⟩ := ih hrec hhi
+      obtain ⟨_, _, hle, _⟩ := parseElispStrT_inv f hrec
+      have hhiE := (Flags.le_of_or hle).2.1 hhi
+      have hnext : c' = 32 → s2.rd.rest = [] ∨ Head s2.rd.rest := by
+        intro hc
+        subst hc
+        obtain ⟨_, _, hrr, hh⟩ := parseElispEscape_blank_next he hr1
+        rw [hrr]
+        exact hh
+      refine ⟨92 :: c' :: t ++ w2, by rw [hr, hr1, hr2]; simp, fun pre hrel => ?_⟩
+      have := hsync (pre ++ 92 :: c' :: t) (escape_rel hsh hhead hhiE hnext hrel)
+      rw [List.append_assoc] at this
+      exact this
+    · -- a raw byte
+      obtain ⟨w2, hr2, hsync⟩ := ih h hhi
+      refine ⟨c :: w2, by rw [hr, hr2]; rfl, fun pre hrel => ?_⟩
+      have hrel' : Rel (pre ++ [c]) (acc ++ [c]) s1.rd.rest := by
+        rcases hrel with hrel | ⟨hp, ⟨st, hst, hne⟩, hh⟩
+        · exact Or.inl (sync_push c hrel)
+        · rw [hr] at hh
+          rcases hh with hh | ⟨b, r, heq, hb⟩
+          · cases hh
+          · cases heq
+            exact Or.inl (by
+              rw [run_none_append _ hp, run_mid_append hst hne ⟨c, [], rfl, hb⟩])
+      have := hsync (pre ++ [c]) hrel'
+      rw [List.append_assoc] at this
+      exact this
+
+/-- **C17, input clause, Emacs Lisp strings, after the repair of the escaped blank** (`.multibyte`
+    result): if the string is accepted and no numeric escape appended a byte ≥ 0x80, the body
+    consumed — up to and including the closing quote — is valid UTF-8.  No hypothesis on `bl`. -/
+theorem C17_elisp_input_valid_noblank {fuel : Nat} {acc : List UInt8} {ub mb na : Bool}
+    {fl0 fl : Flags} {S S' : St} {s w : List UInt8}
+    (h : parseElispStrT fuel acc ub mb na fl0 S = .ok (.multibyte s, fl) S')
+    (hacc : Utf8.valid acc = true)
+    (hw : S.rd.rest = w ++ S'.rd.rest) (hhi : fl.hi = false) :
+    Utf8.valid w = true := by
+  obtain ⟨w0, hr, hsync⟩ := parseElispStrT_inv_noblank fuel h hhi
+  obtain ⟨_, _, _, _, _, hmul⟩ := parseElispStrT_inv fuel h
+  have hrun := hsync [] (Or.inl (by rw [(valid_iff _).mp hacc]; rfl))
+  rw [List.nil_append] at hrun
+  have h34 : (34 : UInt8) < 0x80 := by decide
+  have : Utf8.valid (w0 ++ [34]) = Utf8.valid w0 := by
+    rw [valid_append_cons_ascii w0 [] h34]
+    simp [valid_nil]
+  rw [body_eq hw hr, this, valid_iff, hrun]
+  exact (valid_iff _).mp (hmul s rfl)
+
+/-- the same through the un-instrumented loop -/
+theorem C17_elisp_input_valid_noblank' {fuel : Nat} {S S' : St} {s w : List UInt8}
+    (h : parseElispStr fuel [] false false false S = .ok (.multibyte s) S')
+    (hw : S.rd.rest = w ++ S'.rd.rest) :
+    ∃ fl, parseElispStrT fuel [] false false false {} S = .ok (.multibyte s, fl) S' ∧
+      (fl.hi = false → Utf8.valid w = true) := by
+  obtain ⟨fl, ht⟩ := parseElispStrT_of_ok {} h
+  exact ⟨fl, ht, fun hhi => C17_elisp_input_valid_noblank ht valid_nil hw hhi⟩
+
+/-- **C17, input clause, at `parse_token`, after the repair**: as `C17_elisp_token_input_valid`,
+    without `bl` for a string token. -/
+theorem C17_elisp_token_input_valid_noblank {cfg : Cfg} {fuel : Nat} {S S' : St} {tok : Token}
+    {w : List UInt8} (h : parseToken cfg fuel 34 S = .ok tok S')
+    (hel : cfg.opts.string = .elisp) (hpk : ∃ tl, S.rd.rest = 34 :: tl)
+    (hw : S.rd.rest = w ++ S'.rd.rest) :
+    ∃ S1 r fl, S.rd.rest = 34 :: S1.rd.rest ∧
+      parseElispStrT fuel [] false false false {} S1 = .ok (r, fl) S' ∧
+      tok = tokOf r ∧
+      ((∃ s, tok = .string s) → fl.hi = false → Utf8.valid w = true) ∧
+      ((∃ b, tok = .bytes b) → fl.nc = false → Utf8.valid w = true) := by
+  obtain ⟨S1, r, fl, hr1, ht, htok, _, hby⟩ := C17_elisp_token_input_valid h hel hpk hw
+  refine ⟨S1, r, fl, hr1, ht, htok, fun ⟨s, hs⟩ hhi => ?_, hby⟩
+  cases r with
+  | unibyte b => rw [htok] at hs; cases hs
+  | multibyte s' =>
+    obtain ⟨w0, hr0, _⟩ := parseElispStrT_inv fuel ht
+    have hw' : w = 34 :: (w0 ++ [34]) := by
+      have : w ++ S'.rd.rest = (34 :: (w0 ++ [34])) ++ S'.rd.rest := by
+        rw [← hw, hr1, hr0]; simp
+      exact List.append_cancel_right this
+    have hbody : S1.rd.rest = (w0 ++ [34]) ++ S'.rd.rest := by rw [hr0]; simp
+    rw [hw', valid_cons_ascii _ (by decide : (34 : UInt8) < 0x80)]
+    exact C17_elisp_input_valid_noblank ht valid_nil hbody hhi
+
 /-! ### witnesses -/
 
 /-- run the instrumented loop on a body (the text after the opening quote), slice source -/
@@ -506,18 +706,49 @@ theorem hi_is_needed :
       cleanString [0xC3, 0xA9] r { fl with hi := false } rest && fl.hi) = true := by
   decide +kernel
 
-/-- **Finding 2 (new)**: the escaped blank is ignored, so it can stand INSIDE a sequence.  The
-    body C3 `\ ` A9 `"` is not valid UTF-8, is accepted as `é`, and raises `bl` only; the whole
-    reader reads `"` C3 `\ ` A9 `"` as the string `é`.  Confirmed on the real code (c74523a):
-    `from_slice_custom(b"\"\xC3\\ \xA9\"", Options::elisp())` and the reader source both give
-    `Ok(String("é"))`. -/
-theorem escaped_blank_joins_sequence :
+/-- **Finding 2, repaired**: the escaped blank is ignored, so it could stand INSIDE a sequence: the
+    body C3 `\ ` A9 `"` is not valid UTF-8 and was accepted as `é` (c74523a).  With the check of
+    the byte behind the blank the instrumented loop fails on that body and the whole reader rejects
+    `"` C3 `\ ` A9 `"` with `InvalidUnicodeCodePoint`. -/
+theorem escaped_blank_inside_sequence_rejected :
     Utf8.valid [0xC3, 0x5C, 0x20, 0xA9, 0x22] = false ∧
-    runBody [0xC3, 0x5C, 0x20, 0xA9, 0x22] (fun r fl rest =>
-      cleanString [0xC3, 0xA9] r { fl with bl := false } rest && fl.bl && !fl.nc) = true ∧
+    runBody [0xC3, 0x5C, 0x20, 0xA9, 0x22] (fun _ _ _ => true) = false ∧
     Utf8.valid [0x22, 0xC3, 0x5C, 0x20, 0xA9, 0x22] = false ∧
-    parsesTo cfgEl [0x22, 0xC3, 0x5C, 0x20, 0xA9, 0x22] (.string [0xC3, 0xA9]) = true := by
+    rejectsWith cfgEl [0x22, 0xC3, 0x5C, 0x20, 0xA9, 0x22] .invalidUnicodeCodePoint = true := by
   decide +kernel
+
+/-- `bl` can still rise on a successful run with a STRING result — together with `hi`: the body
+    C3 `\ \xa9"` (the blank is followed by a backslash, the numeric escape completes the
+    sequence) is accepted as `é`.  So "`bl` is never set" is false; what holds is
+    `C17_elisp_input_valid_noblank`. -/
+theorem bl_still_set_string :
+    runBody [0xC3, 0x5C, 0x20, 0x5C, 0x78, 0x61, 0x39, 0x22] (fun r fl rest =>
+      cleanString [0xC3, 0xA9] r { fl with hi := false, bl := false } rest && fl.bl && fl.hi) = true := by
+  decide +kernel
+
+/-- `bl` is still needed in `C17_elisp_input_sync` for a BYTE string: the body `\x41\` C3 `\ "`
+    is accepted as the bytes 41 C3 with `hi` down and `bl` up; the body in front of the closing
+    quote kills the automaton, the bytes returned leave it inside a sequence. -/
+theorem bl_needed_for_sync :
+    runBody [0x5C, 0x78, 0x34, 0x31, 0x5C, 0xC3, 0x5C, 0x20, 0x22] (fun r fl rest =>
+      cleanBytes [0x41, 0xC3] r { fl with nc := false } rest && !fl.hi && fl.bl) = true ∧
+    (Utf8.run .idle [0x5C, 0x78, 0x34, 0x31, 0x5C, 0xC3, 0x5C, 0x20]).isNone = true ∧
+    (Utf8.run .idle [0x41, 0xC3]).isSome = true := by
+  decide +kernel
+
+/-- the hypotheses of `C17_elisp_input_valid_noblank` hold of a body with an escaped blank behind
+    an incomplete buffer … there is none that is accepted with `hi` down (the theorem), so the
+    example has the blank behind a complete buffer and `bl` is simply not asked for -/
+example : Utf8.valid [0xC3, 0xA9, 0x5C, 0x20, 0x7A, 0x22] = true := by
+  have hrun : runBody [0xC3, 0xA9, 0x5C, 0x20, 0x7A, 0x22] (cleanString [0xC3, 0xA9, 0x7A]) = true := by
+    decide +kernel
+  obtain ⟨r, fl, S', h, hp⟩ := runBody_spec hrun
+  cases r with
+  | unibyte b => simp [cleanString] at hp
+  | multibyte s =>
+    simp only [cleanString, Bool.and_eq_true, Bool.not_eq_true', beq_iff_eq] at hp
+    obtain ⟨⟨⟨_, hhi⟩, _⟩, hrest⟩ := hp
+    exact C17_elisp_input_valid_noblank h valid_nil (by rw [hrest]; simp [initSt]) hhi
 
 /-- **Finding 3 (new)**: the catch-all escape arm consumes a byte ≥ 0xC0 after the backslash
     without setting `seen_non_ascii`, so with a numeric escape elsewhere the result is a byte
